@@ -85,6 +85,7 @@ def oracle(line, impl_line):
         ops = a[1] if len(a) > 1 else []
         i = 0
         last_pending_wakes = None
+        prev_wakes = 0
         for op in ops:
             if op == 1:
                 if live:
@@ -113,7 +114,8 @@ def oracle(line, impl_line):
                     return "all tokens dropped and the last poll returned Pending, but the waker was never invoked (lost wake-up)"
                 if live == 0 and last_pending_wakes is not None and wakes <= last_pending_wakes and before > 0:
                     return "the final token drop did not wake the task registered by the latest poll"
-                last_pending_wakes = wakes
+                last_pending_wakes = prev_wakes      # wakes before this pending poll registered its waker
+                prev_wakes = wakes
         return True
     cfg, rscript, wscript, segs, scripts = C07.decode_case(line)
     head, cons, wlog, inv, shut = C07.parse_events(o)
